@@ -16,3 +16,5 @@ ASSUMPTIONS = TRUSTED
 EXPLANATION = ('Proved for every string: escape(s) is the concatenation of the CSSOM serialize-an-identifier pieces (spec/strings.py esc_spec) and never raises '
                '(loop invariant string == esc_spec(ident, i) over code-point sequences). Bounded: the round trip through the parser.')
 LEVEL_TEXT = EXPLANATION
+
+FUNCTIONS = FUNCTIONS + ['soupsieve.css_parser.css_unescape.replace@esc', 'soupsieve.css_parser.css_unescape.replace@stresc', 'soupsieve.css_parser.css_unescape']
